@@ -8,7 +8,7 @@ LEVEL_TEXT = ("Every behaviour of the duration and delay-list rules over the alp
               "sources, recoveries, arrays) must equal the plain semantics: attempts succeed iff the target is susceptible at that instant, nothing at or after tmax.")
 LEVEL_NOTE = "trusted: plain_sis reference; alphabet and infection budget (3/4); coincidence in law with fast_SIS for exponential rules follows from this semantics plus C02 by argument, not enumerated"
 RULE = "one spec = (graph, initial set, horizon, rule form, return mode, budget); every rule behaviour enumerated; non-trivial = at least one transmission beyond the initial infections"
-BOUNDS = {"quick": "P2,P3,K3; all I0; 2 durations x 4 delay lists ([],[a],[a,b],[a,c], c beyond the shorter duration); infection budget 4 (P2), 3 (P3), 2 (K3); exact tmax hit, shifted and negative tmin",
+BOUNDS = {"quick": "P2,P3,K3; all I0; 2 durations x 4 delay lists ([],[a],[a,b],[a,c], c beyond the shorter duration); infection budget 4 (P2), 3 (P3), 2 (K3); exact tmax hit, shifted and negative tmin; 4 directed contact networks on 3 nodes; extra-argument tuples; every node history compared",
           "thorough": "adds C4,S4,P4 (budget 2); budgets 5/4/3"}
 ASSUMPTIONS = ["distinct event times (the property's precondition) via dyadic jitter", "delay lists are sorted; they are NOT assumed to lie before recovery (the property speaks of every listed delay)"]
 
